@@ -41,6 +41,12 @@ LEVEL_TEXT += (
     "function sees the original points; 'vertices reordered within cells' "
     "is recognised by simulating the row moves (any net permutation under "
     "constant row selectors).")
+LEVEL_TEXT += (
+    " Added in the hunting round (defects found by independent agents "
+    "on the unchanged tree, DESIGN.md 9.4 / 9.6): "
+    "coordinates of a join are the operands' coordinates and the "
+    "merging key is scale-free; splits valid for any numbering, "
+    "higher-order surgery, orientation flags (open findings).")
 LEVEL_NOTE = ("Trusted: numpy hstack/unique/intersect1d semantics; "
               "order-preserving vertex compaction keeps the lexicographic "
               "facet order.")
